@@ -211,10 +211,9 @@ def r5(ctx: Ctx) -> None:
     prop_field: dict[str, str] = {}
     for name, fi in cls.methods.items():
         if fi.kind == "property":
-            body = [s for s in fi.node.body if not (isinstance(s, ast.Expr) and isinstance(s.value, ast.Constant))]
-            if len(body) == 1 and isinstance(body[0], ast.Return) and isinstance(body[0].value, ast.Attribute) \
-                    and isinstance(body[0].value.value, ast.Name) and body[0].value.value.id == "self":
-                prop_field[name] = body[0].value.attr
+            from framelint.srcmodel import getter_field
+            if getter_field(fi.node) is not None:
+                prop_field[name] = getter_field(fi.node)
     dup = ctx.func(GEOM, R + "duplicate")
     passed: dict[str, str] = {}
     for node in walk_own(dup.node):
